@@ -1,14 +1,53 @@
 import ComposeVerif.Lemmas.Graph
 /-!
-# C10 — statements the unchanged tree falsifies (DESIGN §10 #5, findings/C10.txt)
+# C10 — what the tree did *before* `fix:` 3143716 (DESIGN §10 #5, findings/C10.txt)
 
-`graph.newGraph` executes `delete(s.DependsOn, name)` — the service's *own* name, not `dep` — when it meets an
-optional dependency that is not an enabled service.  A self-dependency that has not been reached yet by the
-`range` is thereby removed and never enters the graph.  Replayed on the real code by
-`corpus/C10/newgraph-selfdep-optional-disabled.json` (oracle key
-`accepted-cyclic:graph.newGraph:self-dependency+optional-dependency-on-disabled-service`).
+`graph.newGraph` executed `delete(s.DependsOn, name)` — the service's *own* name, not `dep` — when it met an
+optional dependency that is not an enabled service.  A self-dependency that had not been reached yet by the
+`range` was thereby removed and never entered the graph.  The function as it was is kept here (`newGraphOld`, as
+`Neg/C07.lean` keeps `firstCloseGoOld`); the witnesses show what was false then and true now.
+Oracle key of the repaired defect: `accepted-cyclic:graph.newGraph:self-dependency+optional-dependency-on-disabled-service`
+(corpus/C10/newgraph-selfdep-optional-disabled.json now passes).
 -/
 namespace CV.Consistency.Neg
+
+/-- the inner loop as it was: `del` = `delete(s.DependsOn, name)` already happened -/
+def edgesOfOld (verts disabled : List String) (name : String) : Bool → List (String × Bool) → Except Err (List String)
+  | _, [] => .ok []
+  | del, (dep, req) :: rest =>
+    if del && dep == name then edgesOfOld verts disabled name del rest     -- removed before being reached
+    else if verts.contains dep then
+      match edgesOfOld verts disabled name del rest with
+      | .ok es => .ok (dep :: es)
+      | .error e => .error e
+    else if req then .error (if disabled.contains dep then .requiredDisabled else .unknownService)
+    else edgesOfOld verts disabled name true rest                           -- delete(s.DependsOn, name); continue
+
+def buildGraphOld (verts disabled : List String) : List (String × Svc) → Except Err Graph
+  | [] => .ok []
+  | (n, s) :: r =>
+    match edgesOfOld verts disabled n false s.dependsOn with
+    | .error e => .error e
+    | .ok es =>
+      match buildGraphOld verts disabled r with
+      | .error e => .error e
+      | .ok g => .ok ((n, es) :: g)
+
+def newGraphOld (p : Proj) : Except Err Graph := buildGraphOld p.enabled p.disabled p.services
+
+def checkCycleProjOld (p : Proj) : Option Err :=
+  match newGraphOld p with
+  | .error e => some e
+  | .ok g => guard (hasCycle g) .cycle
+
+def checkConsistencyOld (p : Proj) : Option Err :=
+  orE (p.services.findSome? fun e => checkSvc p e.2) <|
+  orE (p.secrets.findSome? fun e => checkSecret e.2) <|
+  checkCycleProjOld p
+
+/-- the caller's `depends_on` of a service after the old loop -/
+def depsAfterOld (verts : List String) (n : String) (s : Svc) : List (String × Bool) :=
+  if s.dependsOn.any (fun d => !verts.contains d.1 && !d.2) then s.dependsOn.filter (fun d => d.1 != n) else s.dependsOn
 
 /-- service `a` depends on itself and, optionally, on the profile-disabled `x`; Go happens to range `x` first -/
 def witness : Proj :=
@@ -18,40 +57,39 @@ def witness : Proj :=
 def witness' : Proj :=
   { services := [("a", { image := "i", dependsOn := [("a", true), ("x", false)] })], disabled := ["x"] }
 
-theorem witness_accepted : checkConsistency witness = none := by decide
+theorem witness_accepted_old : checkConsistencyOld witness = none := by decide
 
 theorem witness_cyclic : ¬ Acyclic witness := fun h =>
   h "a" (.single ⟨{ image := "i", dependsOn := [("x", false), ("a", true)] }, by decide, by decide, true, by decide⟩)
 
-/-- "accepted ⇒ consistent" is false for the code as it is -/
-theorem not_consistency_sound : ¬ (∀ p : Proj, p.enabled.Nodup → checkConsistency p = none → Consistent p) := fun h =>
-  witness_cyclic (h witness (by decide) witness_accepted).2
+/-- "accepted ⇒ consistent" was false -/
+theorem not_consistency_sound_old :
+    ¬ (∀ p : Proj, p.enabled.Nodup → checkConsistencyOld p = none → Consistent p) := fun h =>
+  witness_cyclic (h witness (by decide) witness_accepted_old).2
 
-/-- "a cyclic dependency graph is rejected" is false for the code as it is -/
-theorem not_consistency_complete_cycle :
-    ¬ (∀ p : Proj, p.enabled.Nodup → ¬ Acyclic p → ∃ e, checkConsistency p = some e) := fun h => by
+/-- "a cyclic dependency graph is rejected" was false -/
+theorem not_consistency_complete_cycle_old :
+    ¬ (∀ p : Proj, p.enabled.Nodup → ¬ Acyclic p → ∃ e, checkConsistencyOld p = some e) := fun h => by
   obtain ⟨e, he⟩ := h witness (by decide) witness_cyclic
-  rw [witness_accepted] at he
+  rw [witness_accepted_old] at he
   cases he
 
-/-- the verdict depends on Go's map iteration order: the two orders of one `depends_on` map disagree -/
-theorem checkConsistency_order_dependent :
-    witness'.services.map Prod.fst = witness.services.map Prod.fst ∧
+/-- the verdict depended on Go's map iteration order: the two orders of one `depends_on` map disagreed -/
+theorem checkConsistency_order_dependent_old :
     (∀ s s', ("a", s) ∈ witness.services → ("a", s') ∈ witness'.services → s'.dependsOn.Perm s.dependsOn) ∧
-    checkConsistency witness = none ∧ checkConsistency witness' = some .cycle := by
-  refine ⟨by decide, ?_, by decide, by decide⟩
+    checkConsistencyOld witness = none ∧ checkConsistencyOld witness' = some .cycle := by
+  refine ⟨?_, by decide, by decide⟩
   intro s s' hs hs'
   simp only [witness, witness', List.mem_cons, List.not_mem_nil, or_false, Prod.mk.injEq, true_and] at hs hs'
   subst hs hs'
   exact List.Perm.swap ..
 
-/-- the accepted project is also *modified*: the self edge disappears from the returned project -/
-theorem witness_mutated : ((postState witness).services.map fun e => e.2.dependsOn) = [[("x", false)]] := by decide
+/-- the accepted project was also *modified*: the self edge disappeared from the caller's project -/
+theorem witness_mutated_old :
+    (witness.services.map fun e => depsAfterOld witness.enabled e.1 e.2) = [[("x", false)]] := by decide
 
-/-- the hypothesis of the `_partial` theorems is exactly what the witness lacks -/
-theorem witness_ambiguous : ¬ NoAmbiguousSelfDep witness := fun h => by
-  have := h ("a", { image := "i", dependsOn := [("x", false), ("a", true)] }) (by decide) ⟨true, by decide⟩ ("x", false) (by decide)
-  revert this
+/-- **after the repair** both orders are rejected, and nothing is deleted -/
+theorem witness_rejected_now : checkConsistency witness = some .cycle ∧ checkConsistency witness' = some .cycle := by
   decide
 
 end CV.Consistency.Neg
